@@ -216,7 +216,10 @@ bool Subprocess::Done() const {
   // when they exit.
   // For other processes, we consider them done when we have consumed all their
   // output and closed their associated pipe.
-  return (use_console_ && pid_ == -1) || (!use_console_ && fd_ == -1);
+  // A process that has closed its output may go on running for any length of
+  // time: it is done only once it has exited as well, which is learnt the same
+  // way as for console processes (SIGCHLD and a waitpid() that does not block).
+  return pid_ == -1 && (use_console_ || fd_ == -1);
 }
 
 const string& Subprocess::GetOutput() const {
@@ -295,7 +298,7 @@ void SubprocessSet::CheckConsoleProcessTerminated(SubprocessSet::WorkResult* wor
   if (!s_sigchld_received)
     return;
   for (auto i = running_.begin(); i != running_.end(); ) {
-    if ((*i)->use_console_ && (*i)->TryFinish(WNOHANG)) {
+    if (((*i)->use_console_ || (*i)->fd_ == -1) && (*i)->TryFinish(WNOHANG)) {
       finished_.push(*i);
       i = running_.erase(i);
       *work_result = WorkResult::SubprocFinished;
@@ -396,6 +399,8 @@ SubprocessSet::WorkResult SubprocessSet::DoWork() {
     assert(fd == fds[cur_nfd].fd);
     if (fds[cur_nfd++].revents) {
       (*i)->OnPipeReady();
+      if ((*i)->fd_ == -1)
+        (*i)->TryFinish(WNOHANG);
       if ((*i)->Done()) {
         finished_.push(*i);
         i = running_.erase(i);
@@ -463,6 +468,8 @@ SubprocessSet::WorkResult SubprocessSet::DoWork() {
     int fd = (*i)->fd_;
     if (fd >= 0 && FD_ISSET(fd, &set)) {
       (*i)->OnPipeReady();
+      if ((*i)->fd_ == -1)
+        (*i)->TryFinish(WNOHANG);
       if ((*i)->Done()) {
         finished_.push(*i);
         i = running_.erase(i);
